@@ -499,10 +499,11 @@ class SqlImpl(TableImpl):
                 query.offset += nd.offset
 
         elif isinstance(nd, verbs.GroupBy):
+            # never alias / extend the node's own list: a subtree can be compiled more than once (right operand of a union)
             if nd.add:
-                query.partition_by += nd.group_by
+                query.partition_by = query.partition_by + nd.group_by
             else:
-                query.partition_by = nd.group_by
+                query.partition_by = list(nd.group_by)
 
         elif isinstance(nd, verbs.Ungroup):
             query.partition_by = []
